@@ -434,8 +434,8 @@ def stratum_graphs(nnodes, kinds, maxitems=2):
 # --------------------------------------------------------------------------- parameter sets
 WIDTHS = list(range(1, 25)) + [40, 80, 200]
 INDENTS = (4, 2, 1)
-ML = (None, 1, 2)
-MS = (None, 1, 3)
+ML = (None, 0, 1, 2)
+MS = (None, 0, 1, 3)
 
 
 def params_base():
@@ -449,7 +449,7 @@ def params_base():
     return out
 
 
-TRUNC_COMBOS = ((1, None), (None, 1), (1, 1), (2, 3))
+TRUNC_COMBOS = ((0, None), (None, 0), (1, None), (None, 1), (1, 1), (2, 3))
 TRUNC_WIDTHS = (1, 4, 8, 10, 12, 16, 20, 24, 40, 80)
 
 
@@ -476,7 +476,7 @@ def params_full():
 
 def params_graph():
     out = []
-    for ml in (None, 1):
+    for ml in (None, 0, 1):
         for ind in (4, 2):
             for w in (1, 4, 8, 12, 16, 24, 80):
                 out.append((w, ind, False, ml, None))
@@ -493,7 +493,7 @@ def param_set(name):
                          "graph": params_graph,
                          "base+trunc": lambda: params_base() + params_trunc(),
                          "base+trunc8": lambda: params_base() + params_trunc(ALL_TRUNC_COMBOS),
-                         "base+trunc2": lambda: params_base() + params_trunc(((1, 1), (2, 3)), (4, 10, 16, 24, 80),
+                         "base+trunc2": lambda: params_base() + params_trunc(((0, 0), (1, 1), (2, 3)), (4, 10, 16, 24, 80),
                                                                              extra=False)}[name]()
     return _PARAMS[name]
 
@@ -1236,6 +1236,8 @@ H_VARIANTS = [
     {},
     {"max_length": 1},
     {"max_string": 2},
+    {"max_length": 0},
+    {"max_string": 0},
     {"expand_all": True},
     {"indent_guides": True},
     {"indent_size": 2},
@@ -1499,23 +1501,23 @@ def describe(tier, seed, res):
                 "dict/defaultdict with 1..2 children from M = 3 leaves + one representative per kind x arity 0/1/2 (31); "
                 "all object graphs (cycles, shared children) with 1 node (5 kinds) or 2 nodes (4 kinds), <=2 items per node "
                 "over {0, ref}. PARAMETERS per tree value: max_width 1..24,40,80,200 x indent 4,2,1 (expand_all off) + "
-                "expand_all x 3 widths x indent; + (max_length,max_string) in {(1,None),(None,1),(1,1),(2,3)} x 10 widths "
-                "(+2 indents x 2 widths, + expand_all) = 150 vectors; graphs: 7 widths x 2 indents (+expand_all) x "
-                "max_length None/1 = 30 vectors. "
+                "expand_all x 3 widths x indent; + (max_length,max_string) in {(0,None),(None,0),(1,None),(None,1),(1,1),(2,3)} x 10 widths "
+                "(+2 indents x 2 widths, + expand_all) = 180 vectors; graphs: 7 widths x 2 indents (+expand_all) x "
+                "max_length None/0/1 = 45 vectors. "
                 "Plus slice seed%%%d of the thorough-only value space (3 children, depth 3, chains to depth 6) at the "
                 "no-truncation parameters. Non-trivial = output contains a non-empty container (inline or expanded); "
                 "distinct = outcome signatures (root kind, oracle branch, line-count class, inline/expanded counts, "
                 "repr branch, expand_all, marker kinds)." % ROT_K)
     else:
         rule = ("VALUES and PARAMETERS: leaves and depth 1 (<=2 children over 14 leaves) with the FULL product max_width "
-                "1..24,40,80,200 x indent 4,2,1 x expand_all x max_length None,1,2 x max_string None,1,3 (1458 vectors); "
-                "depth 2 (<=2 children over M=31) with all widths x indents (+expand_all at 3 widths) and all 8 truncation "
-                "combinations x 10 widths (+2 indents x 2 widths, +expand_all) = 210 vectors; depth 1 with 3 children over all "
-                "leaves (150 vectors as in quick); depth 2 with 3 children over a 19-element menu and depth 3 (outer kind x <=3 "
+                "1..24,40,80,200 x indent 4,2,1 x expand_all x max_length None,0,1,2 x max_string None,0,1,3 (2592 vectors); "
+                "depth 2 (<=2 children over M=31) with all widths x indents (+expand_all at 3 widths) and all 15 truncation "
+                "combinations x 10 widths (+2 indents x 2 widths, +expand_all) = 315 vectors; depth 1 with 3 children over all "
+                "leaves (180 vectors as in quick); depth 2 with 3 children over a 19-element menu and depth 3 (outer kind x <=3 "
                 "children, one child a depth-2 value from a 213-element menu, the others from a 5-element menu; pairs of deep "
-                "children) with all widths x indents (+expand_all) and (max_length,max_string) in {(1,1),(2,3)} x 5 widths = 100 "
+                "children) with all widths x indents (+expand_all) and (max_length,max_string) in {(0,0),(1,1),(2,3)} x 5 widths = 105 "
                 "vectors; single-child chains of depth 4..6 over 6 kinds (90 no-truncation vectors); all object graphs with <=2 "
-                "nodes (5 kinds) and 3 nodes (list/dict/tuple), <=2 items per node (30 vectors). Non-trivial / distinct as in quick: "
+                "nodes (5 kinds) and 3 nodes (list/dict/tuple), <=2 items per node (45 vectors). Non-trivial / distinct as in quick: "
                 "non-trivial = output contains a non-empty container (inline or expanded); distinct = outcome signatures.")
     rule += (" HISTORY part: %d mutable values (list, dict, set, deque, defaultdict, nested) x applicable in-place mutations "
              "%s x %d Pretty variants (default, max_length, max_string, expand_all, indent_guides, indent_size, combined) x "
